@@ -10,11 +10,11 @@ PROP = {
         # (a) reply_parser, structure-aware generator (rapidcheck).  Must stay the FIRST rapidcheck sub-check named reply_parser:
         # the *.txt regression inputs of (a) are replayed through it (their first line names the sub).
         {"target": "c15_reply_rc", "sub": "reply_parser",
-         "quick": {"cases": 6000, "max_size": 100, "workers": 4, "case_alarm": 60},
+         "quick": {"cases": 5000, "max_size": 100, "workers": 4, "case_alarm": 60},
          "thorough": {"cases": 300000, "max_size": 100, "workers": 4, "case_alarm": 60}},
         # (b) lookup_lifecycle (rapidcheck + virtual clock + real UDP over loopback)
         {"target": "c15_lifecycle_rc", "sub": "lookup_lifecycle",
-         "quick": {"cases": 2500, "max_size": 100, "workers": 4, "case_alarm": 60},
+         "quick": {"cases": 1500, "max_size": 100, "workers": 4, "case_alarm": 60},
          "thorough": {"cases": 100000, "max_size": 100, "workers": 4, "case_alarm": 60}},
         # (a) reply_parser, libFuzzer (even workers start from corpus/C15/reply_parser, odd ones from an empty corpus).
         # Non-termination is part of the property: a timeout-* artifact counts (25 s per datagram of <= 4 KiB is never load noise;
